@@ -16,6 +16,7 @@ import (
 	_ "github.com/ipld/go-ipld-prime/codec/json"
 	_ "github.com/ipld/go-ipld-prime/codec/raw"
 
+	blocks "github.com/ipfs/go-block-format"
 	"github.com/ipfs/go-cid"
 	ipldfmt "github.com/ipfs/go-ipld-format"
 	"github.com/ipfs/go-unixfsnode"
@@ -199,12 +200,27 @@ func writeCarV2(ctx context.Context, rootCid cid.Cid, output string, bs *blockst
 	return outStore.Finalize()
 }
 
-func writeCarV1(rootCid cid.Cid, output string, bs *blockstore.ReadOnly, _ bool, sel datamodel.Node, linkVisitOnlyOnce bool) error {
+// lenientStore turns a missing block into traversal.SkipMe, as the CARv2 path does when --strict is off.
+type lenientStore struct{ bs *blockstore.ReadOnly }
+
+func (l lenientStore) Get(ctx context.Context, c cid.Cid) (blocks.Block, error) {
+	b, err := l.bs.Get(ctx, c)
+	if err != nil && ipldfmt.IsNotFound(err) {
+		return nil, traversal.SkipMe{}
+	}
+	return b, err
+}
+
+func writeCarV1(rootCid cid.Cid, output string, bs *blockstore.ReadOnly, strict bool, sel datamodel.Node, linkVisitOnlyOnce bool) error {
+	var store car.ReadStore = bs
+	if !strict {
+		store = lenientStore{bs}
+	}
 	opts := make([]car.Option, 0)
 	if linkVisitOnlyOnce {
 		opts = append(opts, car.TraverseLinksOnlyOnce())
 	}
-	sc := car.NewSelectiveCar(context.Background(), bs, []car.Dag{{Root: rootCid, Selector: sel}}, opts...)
+	sc := car.NewSelectiveCar(context.Background(), store, []car.Dag{{Root: rootCid, Selector: sel}}, opts...)
 	f, err := os.Create(output)
 	if err != nil {
 		return err
